@@ -25,7 +25,8 @@ Alpha == <<
   "la t1, D1", "lw t0, 0(t1)", "sw t0, 0(t1)",
   "li a7, 5\n    ecall", "li a7, 1\n    ecall", "li a7, 9\n    ecall",
   "call F", "mv a0, t0\n    call F",
-  "beqz t0, K", "bnez a0, K", "j K" >>
+  "beqz t0, K", "bnez a0, K", "j K",
+  "bgez t0, K", "bge t0, zero, K", "bltz t0, K", "bgeu t0, zero, K", "bltu zero, t0, K", "ble zero, t0, K" >>
 NA == Len(Alpha)
 
 Callees == <<
